@@ -62,10 +62,14 @@ func moduleCone(p *Prog, roots []*ssa.Function) []*ssa.Function {
 	return order
 }
 
-// small helpers that are inlined into every C09 kernel so that facts about the parsed document carry over
-var c09Helpers = map[string]bool{
-	"parseResponse": true, "xmlUnmarshalElement": true,
-	"(*SAMLServiceProvider).validateElementSignature": true, "(*SAMLServiceProvider).validationContext": true,
+// sub-kernels of the C09 cone: analysed as their own kernels, never inlined into callers
+var c09SubKernels = map[string]bool{
+	"(*SAMLServiceProvider).ValidateEncodedResponse": true, "(*SAMLServiceProvider).RetrieveAssertionInfo": true,
+	"(*SAMLServiceProvider).ValidateEncodedLogoutRequestPOST": true, "(*SAMLServiceProvider).ValidateEncodedLogoutResponsePOST": true,
+	"DecodeUnverifiedBaseResponse": true, "DecodeUnverifiedLogoutResponse": true,
+	"(*SAMLServiceProvider).Validate": true, "(*SAMLServiceProvider).ValidateDecodedLogoutResponse": true, "(*SAMLServiceProvider).ValidateDecodedLogoutRequest": true,
+	"(*SAMLServiceProvider).VerifyAssertionConditions": true, "(*SAMLServiceProvider).decryptAssertions": true, "(*SAMLServiceProvider).getDecryptCert": true,
+	"(*types.EncryptedAssertion).DecryptBytes": true, "(*types.EncryptedAssertion).Decrypt": true, "(*types.EncryptedKey).DecryptSymmetricKey": true,
 }
 
 func hasFuncParam(fn *ssa.Function) bool {
@@ -89,7 +93,9 @@ func (c *Ctx) intraKernel(fn *ssa.Function) *Result {
 		if callee.Parent() != nil {
 			return true
 		}
-		return hasFuncParam(callee) || c09Helpers[shortFn(callee)]
+		// inline every helper except the large sub-kernels, which are analysed on their own and summarised
+		// ("non-nil on success", heap-pure); a newly extracted helper is therefore inlined automatically
+		return !c09SubKernels[shortFn(callee)]
 	}
 	res, err := en.Run(fn)
 	c.Engines = append(c.Engines, en)
@@ -658,15 +664,14 @@ func (k *c09) checkAttachedRoots() bool {
 	}
 	// decryptAssertions is called only from ValidateEncodedResponse
 	scanCalls(c.P, c.P.LibFns, func(s string) bool { return shortName(s) == "(*SAMLServiceProvider).decryptAssertions" }, func(s callSite) {
-		if shortFn(topFn(s.Caller)) != "(*SAMLServiceProvider).ValidateEncodedResponse" {
+		if !c.P.withinOnly(s.Caller, allowNames("(*SAMLServiceProvider).ValidateEncodedResponse")) {
 			ok = false
 			c.bad("C09-R2/attached-roots", shortFn(s.Caller), "caller of decryptAssertions", c.P.InstrPos(s.Instr), "decryptAssertions called from an unanalysed site")
 		}
 	})
 	// traversals elsewhere in the library
 	scanCalls(c.P, c.P.LibFns, func(s string) bool { return strings.HasSuffix(s, "etreeutils.NSFindIterate") }, func(s callSite) {
-		top := shortFn(topFn(s.Caller))
-		if top != "(*SAMLServiceProvider).ValidateEncodedResponse" && top != "(*SAMLServiceProvider).decryptAssertions" && top != "(*SAMLServiceProvider).validateAssertionSignatures" {
+		if !c.P.withinOnly(s.Caller, allowNames("(*SAMLServiceProvider).ValidateEncodedResponse", "(*SAMLServiceProvider).decryptAssertions", "(*SAMLServiceProvider).validateAssertionSignatures")) {
 			ok = false
 			c.bad("C09-R2/attached-roots", shortFn(s.Caller), "traversal site", c.P.InstrPos(s.Instr), "new traversal site outside the analysed kernels")
 		}
